@@ -33,6 +33,9 @@ def generate(rng, length, n_handlers, directed=True):
     skipped and counted."""
     ops = []
     style = rng.choice(["mixed", "churn", "growth", "ties", "overflow"])
+    if rng.random() < 0.08:
+        # a very large heap: tens of thousands of lazily deleted entries below a few live ones, then ordinary operations
+        ops.append(["burst", rng.choice([3000, 17000, 17000, 40000])])
     for _ in range(length):
         x = rng.random()
         h = rng.randrange(n_handlers)
@@ -262,6 +265,24 @@ def run_history(ops, n_handlers, stats=None, schedulers=("heap", "list")):
                 if k == 0 and before is not None:
                     slack = capacity(heap, before) - 2 - before
                     bump("overflow_push_with_%s_free_slots" % (slack if slack < 3 else "many"))
+        elif kind == "burst":
+            free = [i for i in range(n_handlers) if i not in model]
+            if len(free) < 1:
+                bump("skipped_precondition")
+                continue
+            # keep one early live event so that nothing of what follows reaches the root
+            anchor = None
+            if len(free) > 1:
+                anchor = free.pop()
+                do_push(anchor, (last[0], max(last[1], 0.0)), index)
+            for k in range(op[1]):
+                i = free[k % len(free)]
+                do_push(i, (last[0] + 5 + (k * 7919) % 1000, ((k * 104729) % 997) / 997.0), index)
+                do_trash(i)
+            bump("burst")
+            got = physical_entries(heap) if heap is not None else None
+            if got is not None:
+                stats["max_physical_entries"] = max(stats.get("max_physical_entries", 0), got)
         elif kind == "fill":
             # directed placement: bring the number of physical entries to a capacity boundary (size - 3 + target)
             if heap is None:
